@@ -289,8 +289,10 @@ def mutate_tokens(tokens: list[str], rng: random.Random, vocabulary: list[str]) 
 # random rule sets as tuple trees (C12 streams, C11 `engine-random` stream)
 
 
-STRING_TERMINALS = ['"a"', '"b"', '"+"', '"("', '")"', '"["', '"]"', '"if"', '":="', '"|"', '"*"', '"?"', '"\\n"', '"\\t"', '"a b"', '"x.y"', '"/"', '"//"', '"1"', '"\\INDENT"', '"\\\\"', '"\'"', '"#"', '"="']
-REGEXP_TERMINALS = ['/a/', '/[a-z]+/', '/\\d+/', '/[+-]/', '/x|y/', '/[\\/]/', '/a b/', '/"q"/', '/[*+?]/', '/\\w+/', '/[ab]c/', '/(a)*/', '/[|]/', '/\\[\\]/']
+STRING_TERMINALS = ['"a"', '"b"', '"+"', '"("', '")"', '"["', '"]"', '"if"', '":="', '"|"', '"*"', '"?"', '"\\n"', '"\\t"', '"a b"', '"x.y"', '"/"', '"//"', '"1"', '"\\INDENT"', '"\\\\"', '"\'"', '"#"', '"="', '"/a/"', '"[a]"', '"(a)"', '"/"', '"a/"', '"]"', '"[["']
+REGEXP_TERMINALS = ['/a/', '/[a-z]+/', '/\\d+/', '/[+-]/', '/x|y/', '/[\\/]/', '/a b/', '/"q"/', '/[*+?]/', '/\\w+/', '/[ab]c/', '/(a)*/', '/[|]/', '/\\[\\]/',
+	# bodies that begin / end with an escaped slash, a bracket or a quote (boundary characters of the printed form)
+	'/a\\//', '/\\//', '/<\\//', '/\\/a/', '/\\/\\//', '/[a]/', '/(a)/', '/"/', '/a"/']
 SYMBOL_NAMES = ['entry', 'expr', 'term', 'atom', 'name', 'op', 'x', 'y1', 'a_b', 'Rule', 'list', 'item', '_u', 'n0']
 
 
@@ -354,7 +356,7 @@ class RuleGen:
 				if kind == 'token-as-tree':
 					return (n, [])
 				if kind == 'bad-make':
-					return (n, rng.choice(['', 'a b', '"abc', '/abc', 'a-b', '"', '/', 'é', '[x]', 'a.b']))
+					return (n, rng.choice(['', 'a b', '"abc', '/abc', 'a-b', '"', '/', '+', '[x]', 'a.b']))
 				if kind == 'symbol-quoted':
 					return ('symbol', rng.choice(['"q"', '/r/', '"\\n"']))
 				return e
